@@ -10,7 +10,7 @@ use proptest::collection::vec;
 use proptest::prelude::*;
 use serde_json::Value;
 
-fn oracles() -> Oracles {
+pub fn oracles() -> Oracles {
     Oracles { dump_every: 2, final_reopen: true, bytes_on_refusal: true, ..Oracles::default() }
 }
 
@@ -39,14 +39,14 @@ fn op_strategy() -> BoxedStrategy<Op> {
     .boxed()
 }
 
-fn strategy(tier: Tier) -> BoxedStrategy<Case> {
+pub fn strategy(tier: Tier) -> BoxedStrategy<Case> {
     let n = if tier == Tier::Thorough { 120 } else { 50 };
     (proptest::sample::select(vec![3u8, 4]), pool_strategy(NameProfile::Unicode, 2, 12), vec(op_strategy(), 3..=n))
         .prop_map(|(version, pool, ops)| Case { version, max_buf: None, start: Start::Fresh, pool, ops })
         .boxed()
 }
 
-fn report(c: &Case) -> CaseReport {
+pub fn report(c: &Case) -> CaseReport {
     let out = run_case(c, oracles(), None);
     let s = &out.stats;
     let mut classes: Vec<String> = s.classes.keys().filter(|k| !k.starts_with("refused:") || k.contains("invalid")).cloned().collect();
